@@ -117,6 +117,7 @@ func injectONFFields(rt *rapid.T, g *gen.G, n *spec.Node) {
 	for _, k := range n.Kids {
 		injectONFFields(rt, g, k)
 	}
+	injectWireOnlyActions(rt, g, n)
 	if n.Kind != "match" || gen.Pick(rt, "onf_fields?", 3) != 0 {
 		return
 	}
@@ -147,6 +148,41 @@ func injectONFFields(rt *rapid.T, g *gen.G, n *spec.Node) {
 	}
 }
 
+// injectWireOnlyActions adds, to some action lists of a switch-originated tree,
+// the standard actions the library decodes but has no constructor for
+// (copy_ttl_out/in, set_mpls_ttl, dec_mpls_ttl, set_nw_ttl, push_pbb, pop_pbb):
+// a switch reports them in flow-stats replies like any other action.
+func injectWireOnlyActions(rt *rapid.T, g *gen.G, n *spec.Node) {
+	if (n.Kind != "instr.apply_actions" && n.Kind != "instr.write_actions") || gen.Pick(rt, "wire_actions?", 4) != 0 {
+		return
+	}
+	for i, cnt := 0, 1+gen.Pick(rt, "wire_action_count", 2); i < cnt; i++ {
+		var a *spec.Node
+		switch gen.Pick(rt, "wire_action", 7) {
+		case 0:
+			a = spec.N("act.copy_ttl_out")
+		case 1:
+			a = spec.N("act.copy_ttl_in")
+		case 2:
+			a = spec.N("act.dec_mpls_ttl")
+		case 3:
+			a = spec.N("act.pop_pbb")
+		case 4:
+			a = spec.N("act.set_mpls_ttl", spec.U("ttl", uint64(g.U8("mpls_ttl"))))
+		case 5:
+			a = spec.N("act.set_nw_ttl", spec.U("ttl", uint64(g.U8("nw_ttl"))))
+		default:
+			a = spec.N("act.push_pbb", spec.U("ethertype", uint64(g.U16("pbb_ethertype"))))
+		}
+		pos := gen.Pick(rt, "wire_action_pos", len(n.Kids)+1)
+		n.Kids = append(n.Kids[:pos], append([]*spec.Node{a}, n.Kids[pos:]...)...)
+		g.Label("wire_only_action=" + a.Kind)
+		if pos < len(n.Kids)-1 {
+			g.Label("wire_only_action_not_last")
+		}
+	}
+}
+
 func checkParsed(c *ev.Collector, t ev.Fataler, sm gen.SwitchMsg) {
 	b, tooBig := encodeModel(sm.Tree)
 	if tooBig {
@@ -161,7 +197,18 @@ func checkParsed(c *ev.Collector, t ev.Fataler, sm gen.SwitchMsg) {
 		c.Sample(map[string]any{"kind": sm.Kind, "tree": clip(sm.Tree.String(), 600), "bytes": len(b), "hex": clipHex(b, 96)})
 	}
 	rep := map[string]any{"kind": sm.Kind, "tree": sm.Tree.String(), "hex": hx(b)}
+	noCodec := false
+	sm.Tree.Walk(func(n *spec.Node) {
+		switch n.Kind {
+		case "act.copy_ttl_out", "act.copy_ttl_in", "act.dec_mpls_ttl", "act.pop_pbb", "act.set_mpls_ttl", "act.set_nw_ttl":
+			noCodec = true
+		}
+	})
 	fail := func(sig, detail string) {
+		if noCodec {
+			// one signature: every symptom in a frame that carries one of these actions has the same root cause
+			sig = "C04|std-action-decoded-as-bare-header|len4"
+		}
 		if of10Kinds[sm.Kind] {
 			// one signature per OF1.0-layout kind: every symptom there has the same root cause
 			sig = "C04|" + sm.Kind + "|of10-layout"
